@@ -152,8 +152,33 @@ class SpecMixin:
     def spec_form(self, st, name, args, kwargs):
         if name == "raised":
             raise SpecError("raised() is only meaningful in raises clauses")
+        if name in ("set_has", "dq_len", "dq_maxlen", "dq_at", "dq_idx"):
+            yield st, self.spec_container_form(st, name, args)
+            return
+        if name in ("map_has", "map_get", "map_key0"):
+            from .models import _map_entries, _map_find
+            m = args[0]
+            if name == "map_key0":
+                yield st, _map_entries(st, m)[0][0]
+                return
+            idx = _map_find(self, st, m, args[1])
+            if idx is None:
+                raise SpecError("map_has/map_get on a key the path never touched")
+            k, p, v = _map_entries(st, m)[idx]
+            yield st, (p if name == "map_has" else v)
+            return
         if name == "ghost":
             yield st, TupleV(list(st.ghost.get(args[0].s, ())))
+            return
+        if name == "timer_arg":
+            t = args[0]
+            i = self.pyconst(args[1])
+            if not (isinstance(t, Opaque) and t.typ == "timer"):
+                raise SpecError("timer_arg of a non-timer")
+            yield st, t.data["args"][i]
+            return
+        if name == "timer_delay":
+            yield st, args[0].data["delay"]
             return
         if name == "uf":
             # uf("name", "real"|"int"|"bool", *args): uninterpreted function application
@@ -223,7 +248,7 @@ class SpecMixin:
         # 3. normal outcome: havoc + fresh result + assume ensures
         post0 = self.havoc_modifies(ok, c, env, maker)
         from .shapes import expand_oneof
-        for rs in expand_oneof(self.result_shape(c, f)):
+        for rs in expand_oneof(maker.resolve(self.result_shape(c, f))):
             post, result = maker.make(post0, rs, self.fresh(f"{c.short}.result"))
             env2 = dict(env)
             env2["result"] = result
